@@ -144,13 +144,32 @@ def catalogue(rng, target, others, schemas):
     fields = [a for a in type(t).__attrs_attrs__ if a.init and a.name != 'metadata']
     for a in fields:
         ops.append(('but-same', lambda a=a: ('but-same', a.name, t.but(**{a.name: getattr(t, a.name)}))))
-    donors = []
+    def sort_of(x):
+        for flag in ('is_expression', 'is_predicate', 'is_event', 'is_scope', 'is_pattern', 'is_property'):
+            if getattr(x, flag, False):
+                return flag
+        return None
+
+    if type(t).__name__ == 'HplLiteral':
+        v = t.value
+        swaps = {1: True, 0: False, True: 1, False: 0}
+        if not isinstance(v, str) and v in swaps and type(swaps[v]) is not type(v):
+            nv = swaps[v]
+            ops.append(('but-equal-value', lambda nv=nv: ('but-equal-value', 'value', nv, t.but(value=nv))))
+        if isinstance(v, int) and not isinstance(v, bool):
+            ops.append(('but-equal-value', lambda: ('but-equal-value', 'value', float(v), t.but(value=float(v)))))
+
+    donors = {}
     for o in others:
-        donors.extend(x for x in subtrees(o) if getattr(x, 'is_expression', False))
+        for x in subtrees(o):
+            k = sort_of(x)
+            if k:
+                donors.setdefault(k, []).append(x)
     for a in fields:
         cur = getattr(t, a.name)
-        if getattr(cur, 'is_expression', False) and donors:
-            d = gen.pick(rng, donors)
+        k = sort_of(cur) if hasattr(type(cur), '__attrs_attrs__') else None
+        if k and donors.get(k):
+            d = gen.pick(rng, donors[k])
             ops.append(('but-other', lambda a=a, d=d: ('but-other', a.name, d, t.but(**{a.name: d}))))
     return ops
 
@@ -222,6 +241,14 @@ def run(ctx):
                     'writes_to_published_nodes': W.writes_published[:4], 'outcome': hplapi.exc_class(o)}, feats)
                 return
             # but() contract
+            if o[0] == 'ok' and isinstance(o[1], tuple) and o[1] and o[1][0] == 'but-equal-value':
+                new = o[1][3]
+                fresh = hplapi.outcome(_fresh_construction, target, 'value', o[1][2])
+                if fresh[0] == 'ok' and (monitors.snapshot(new, with_meta=False) != monitors.snapshot(fresh[1], with_meta=False)):
+                    ctx.violation('but-fresh', {'input': text[:300], 'field': 'value', 'new_value': repr(o[1][2]),
+                                                'new': repr(new)[:160], 'fresh': repr(fresh[1])[:160]}, feats)
+                    return
+                o = ('ok', new)
             if o[0] == 'ok' and isinstance(o[1], tuple) and o[1] and o[1][0] in ('but-same', 'but-other'):
                 if o[1][0] == 'but-same' and o[1][2] is not target:
                     ctx.violation('but-identity', {'input': text[:300], 'field': o[1][1], 'sequence': list(seq)}, feats)
@@ -285,6 +312,10 @@ def run(ctx):
                 case.aliases[a0] = case.this
                 tg = gen.Typed(rng, this=case.this, aliases=case.aliases, maxdepth=rng.randrange(1, 4))
                 case.e = tg.prim(t, tg.maxdepth)
+            if n % 7 == 0:
+                c = ('const', gen.pick(rng, ('NAN', 'INF', 'PI')))
+                case.e = ('bin', '<', case.e, c) if t == gen.NUM else (('bin', 'and', case.e, ('bin', '<', A.num('1'), c)) if t == gen.BOOL else case.e)
+                t = gen.BOOL if t in (gen.NUM, gen.BOOL) else t
             if not A.renderable(case.e):
                 continue
             if t == gen.BOOL and rng.random() < 0.5:
@@ -310,7 +341,8 @@ def run(ctx):
             continue
         for _ in range(B['seqs']):
             run_sequence(root, abs_e, text, feats, schemas)
-        if getattr(root, 'is_expression', False) or getattr(root, 'is_predicate', False):
+        if getattr(root, 'is_expression', False) or getattr(root, 'is_predicate', False) or (
+                getattr(root, 'is_property', False) and rng.random() < 0.5):
             donors_pool.append(root)
             if len(donors_pool) > 6:
                 donors_pool.pop(0)
